@@ -136,7 +136,10 @@ class BaseRoutine(Generic[T]):
                 break
             visited.add(child)
 
-        return self.children_order if is_sorted else TopologicalSorter(predecessor_map).static_order()
+        if is_sorted:
+            return self.children_order
+        # Predecessors are passed in sorted order, so that the result does not depend on set iteration order.
+        return TopologicalSorter({name: sorted(preds) for name, preds in predecessor_map.items()}).static_order()
 
     def sorted_children(self) -> Iterable[Self]:
         return [self.children[child_name] for child_name in self.sorted_children_order]
